@@ -343,3 +343,33 @@ func ListLTX(dbDir string) (files []*LTXFile, other []string) {
 	}
 	return files, other
 }
+
+// ChainProblems checks the transaction log of a database directory: every file verifies, files are
+// contiguous by TXID and linked by checksum, only transaction files (and *.tmp leftovers) exist, and the
+// chain ends at the given position (wantTXID 0 = do not check the end).
+func ChainProblems(dbDir string, wantTXID, wantChk uint64) []string {
+	var out []string
+	files, other := ListLTX(dbDir)
+	for _, o := range other {
+		if filepath.Ext(o) != ".tmp" {
+			out = append(out, "stray file "+o)
+		}
+	}
+	for i, f := range files {
+		if f.Err != "" {
+			out = append(out, fmt.Sprintf("%s does not verify: %s", f.Name, f.Err))
+			continue
+		}
+		if i > 0 && files[i-1].Err == "" && (f.Min != files[i-1].Max+1 || f.Pre != files[i-1].Post) {
+			out = append(out, fmt.Sprintf("%s does not continue %s", f.Name, files[i-1].Name))
+		}
+	}
+	if wantTXID != 0 {
+		if n := len(files); n == 0 {
+			out = append(out, "no transaction file although the position is not zero")
+		} else if files[n-1].Max != wantTXID || (files[n-1].Err == "" && files[n-1].Post != wantChk) {
+			out = append(out, fmt.Sprintf("log ends at %s, position is %016x/%016x", files[n-1].Name, wantTXID, wantChk))
+		}
+	}
+	return out
+}
